@@ -251,5 +251,171 @@ Proof.
   - exact (reindex_sound o Hr ts inputs output i2v HL HW HD HF HN Hout Hi2v Hsz sigma F K ND HC SZ NK VS VK KV loop_sound oidx).
   - exact (reindex_complete o Hr ts inputs output i2v HL HW HD HF HN Hout Hi2v Hsz sigma F K ND HC SZ NK VS VK KV loop_sound oidx).
 Qed.
+
+(** * (d) the argmax variant: pointers *)
+Lemma phys_out_eq coords : Forall2 lt coords (map snd outp) ->
+  phys_out o views outp coords = einsum_views o views outp coords.
+Proof.
+  intros Hb.
+  destruct (cs_facts r CS) as (_ & _ & _ & _ & _ & NK & _).
+  destruct cv_facts as (_ & _ & _ & _ & V5 & V8 & V6 & _).
+  fold K in NK.
+  assert (Wraw : wf R (mkPT (phys_out o views outp) outp outv r0)) by (apply (repr_inv_wf R _ (map snd outp)); exact V6).
+  pose proof (wf_nodup R _ Wraw) as NDo. cbn [paxes] in NDo.
+  assert (Vok : Forall (view_ok (R:=R)) views) by (apply (views_all_ok sigma fts views OKT); apply mapM_Forall2; exact E3).
+  unfold phys_out. destruct (use_reduce views); [|reflexivity].
+  apply (reduce_equation_sound o Hr views outp _ Vok NDo V8); [|exact Hb].
+  intros v kn n Hv Hkn Hn. apply (keys_unique K (fst kn) n (snd kn) NK).
+  - unfold K, kvars. apply in_or_app. left. exact Hn.
+  - rewrite <- surjective_pairing. exact (V5 v kn Hv Hkn).
+Qed.
+
+Variable rest : list (nat * axis).
+Hypothesis W1 : map fst rest = summed_labels inputs output.
+Hypothesis W2 : forall l e, In (l, e) rest -> lassoc l i2v = Some e.
+Hypothesis W3 : forall l e, In (l, e) rest -> forall o0 s0, stride (sfuel sigma [e]) sigma e = Ok (o0, s0) ->
+                  forall k c, In (k, c) s0 -> assoc k sigma = None.
+
+Lemma lval_rest (f : nat * axis -> nat) l e : In (l, e) rest -> (forall e', In (l, e') rest -> e' = e) ->
+  lval (combine (map fst rest) (map f rest)) l = f (l, e).
+Proof.
+  intros Hin Hu. unfold lval. clear W1 W2 W3. induction rest as [|[l0 e0] rs IH]; [contradiction|]. simpl.
+  destruct (Nat.eqb_spec l0 l) as [->|Hne].
+  - rewrite (Hu e0 (or_introl eq_refl)). reflexivity.
+  - destruct Hin as [E|Hin]; [inversion E; congruence|]. apply IH; [exact Hin|]. intros e' H'. apply Hu. right. exact H'.
+Qed.
+
+Theorem ptr_correct oidx pi pp vp :
+  length oidx = length output ->
+  index_list outv [] oidx = IOk pi ->
+  In pp (all_assts (map snd sv)) ->
+  ptr_translate sigma (map snd rest) outp sv (pcoords outp (env_of pi)) pp = Ok vp ->
+  let pi' := combine (map fst outp) (pcoords outp (env_of pi)) ++ combine (map fst sv) pp in
+  In pi' (all_envs K) /\
+  vp = map (eval (xt sigma F pi')) (map snd rest) /\
+  einsum_term o (map (dn (R:=R)) ts) inputs (combine output oidx ++ combine (summed_labels inputs output) vp)
+  = prodS o views (fun v => vw_fn v (map (env_of pi') (map fst (vw_vars v)))).
+Proof.
+  intros Lo Hidx Hpp Hptr pi'.
+  destruct (co_facts o veqb Hveqb r inputs output CO) as (HL & HW & HD & HF & HN & Hout & Hi2v & Hsz).
+  destruct (cs_facts r CS) as (Pos & ND & HC & SZ & VS & NK & KU & VK & KV).
+  destruct cv_facts as (Lv & V2 & V3 & V4 & V5 & V8 & V6 & V7).
+  fold sigma in ND, HC, SZ, VS, KU, VK, KV. fold F in HC, VK, KV. fold K in NK, KU, VK, KV. fold V in VS, VK, KV. fold ts in HL, HW, HD, HF. fold i2v in Hout, Hi2v, Hsz.
+  set (raw := mkPT (phys_out o views outp) outp outv r0).
+  assert (Wraw : wf R raw) by (apply (repr_inv_wf R raw (map snd outp)); exact V6).
+  pose proof (wf_nodup R raw Wraw) as NDo. cbn [paxes raw] in NDo.
+  (* the output cell is backed by [pi] *)
+  destruct (index_list_sound outv [] oidx pi (eq_trans Lo (eq_sym outv_length)) Hidx) as (_ & _ & Hs).
+  destruct (Hs (env_of pi) (agrees_env_of pi)) as [Eo Ro].
+  set (po := combine (map fst outp) (pcoords outp (env_of pi))).
+  assert (Epo : po = restrict (env_of pi) outp).
+  { unfold po, pcoords, restrict. clear. induction outp as [|kn l IH]; [reflexivity|]. simpl. f_equal. exact IH. }
+  assert (Hpo : In po (all_envs outp)).
+  { rewrite Epo. apply all_envs_complete. intros k n Hk. apply (wf_fv R raw Wraw) in Hk. cbn [vaxes raw] in Hk.
+    apply in_flat_map in Hk. destruct Hk as (e & He & Hk). rewrite Forall_forall in Ro. exact (proj2 (inrange_fvn _ e) (Ro e He) k n Hk). }
+  set (ps := combine (map fst sv) pp).
+  assert (Hps : In ps (all_envs sv)) by (rewrite all_envs_assts; apply in_map; exact Hpp).
+  assert (HpK : In pi' (all_envs K)).
+  { unfold K, kvars. fold views. fold outp. fold sv. rewrite all_envs_app. apply in_flat_map. exists po. split; [exact Hpo|apply in_map; exact Hps]. }
+  split; [exact HpK|].
+  set (rho := xt sigma F pi').
+  assert (M : models rho sigma) by (apply ext_models; assumption).
+  assert (Unb : forall k, assoc k sigma = None -> rho k = env_of pi' k) by (intros k Hk; apply ext_unbound; exact Hk).
+  (* the pointers *)
+  assert (Evp : vp = map (eval rho) (map snd rest)).
+  { unfold ptr_translate in Hptr. fold po in Hptr. fold ps in Hptr. change (po ++ ps) with pi' in Hptr.
+    apply mapM_Forall2 in Hptr. symmetry. rewrite <- (map_id vp). apply Forall2_map_eq.
+    assert (W3' : forall e, In e (map snd rest) -> forall o0 s0, stride (sfuel sigma [e]) sigma e = Ok (o0, s0) ->
+                    forall k c, In (k, c) s0 -> assoc k sigma = None).
+    { intros e He. apply in_map_iff in He. destruct He as ([l e'] & <- & Hin). exact (W3 l e' Hin). }
+    clear -Hptr M Unb W3'. induction Hptr as [|e v le lv0 Hv _ IH]; constructor.
+    - destruct (stride (sfuel sigma [e]) sigma e) as [[o0 s0]|] eqn:Es; [|discriminate]. cbn [bind fst snd] in Hv. inversion Hv; subst.
+      rewrite (stride_affine rho sigma M _ _ _ _ Es). cbn [fst snd]. f_equal. apply lin_eval_agree. intros k c Hkc.
+      apply Unb. exact (W3' e (or_introl eq_refl) o0 s0 Es k c Hkc).
+    - apply IH. intros e' He'. apply W3'. right. exact He'. }
+  split; [exact Evp|].
+  (* the output indices *)
+  assert (EO : map (lv i2v rho) output = oidx).
+  { rewrite <- Eo. symmetry.
+    transitivity (evals (env_of pi') outv).
+    - apply evals_ext. intros k Hk. assert (Hko : In k (map fst outp)) by exact (wf_keys_fv raw k Wraw Hk).
+      unfold pi'. fold po. fold ps. rewrite env_of_app_l by (rewrite (all_envs_keys outp po Hpo); exact Hko).
+      rewrite Epo. symmetry. apply restrict_env. exact Hko.
+    - symmetry. unfold evals. apply Forall2_map_eq.
+      apply (outv_read sigma i2v rho (env_of pi') M SZ Unb).
+      + intros l e El. apply sized_of_occ. intros k n Hk. apply VS. apply (occ_fvn l e k n); [apply Hi2v; exact El|exact Hk].
+      + apply mapM_Forall2. exact E2.
+      + exact V7. }
+  (* the valuation of the labels *)
+  set (A := lval (combine output oidx ++ combine (summed_labels inputs output) vp)).
+  assert (NDr : NoDup (map fst rest)) by (rewrite W1; apply dedup_nat_NoDup).
+  assert (HA : forall l, In l (concat inputs) -> A l = lv i2v rho l).
+  { intros l Hl. unfold A, lval. rewrite lassoc_app. destruct (in_dec Nat.eq_dec l output) as [Ho|Ho].
+    - rewrite <- EO. rewrite (lassoc_combine_map output (lv i2v rho) l Ho). reflexivity.
+    - rewrite (lassoc_combine_notin output oidx l Ho).
+      assert (Hs' : In l (map fst rest)) by (rewrite W1; apply dedup_nat_In; split; assumption).
+      apply in_map_iff in Hs'. destruct Hs' as ([l' e] & El & Hin). simpl in El. subst l'.
+      rewrite <- W1, Evp, map_map.
+      change (match lassoc l (combine (map fst rest) (map (fun x => eval rho (snd x)) rest)) with Some v => v | None => 0 end)
+        with (lval (combine (map fst rest) (map (fun x => eval rho (snd x)) rest)) l).
+      rewrite (lval_rest (fun x => eval rho (snd x)) l e Hin).
+      + unfold lv. rewrite (W2 l e Hin). reflexivity.
+      + intros e' H'. pose proof (W2 l e' H') as X. rewrite (W2 l e Hin) in X. congruence. }
+  (* the product *)
+  assert (Rin : forall x n, In (x, n) V -> rho x < n).
+  { intros x n Hx. apply (ext_bound sigma F SZ (env_of pi') x n K pi' NK HpK eq_refl (VS x n Hx)). intros kn Hkn. exact (VK x n Hx kn Hkn). }
+  pose proof (loop_sound rho M) as Co. unfold coinc_b in Co. rewrite forallb_forall in Co.
+  transitivity (term o ts rho).
+  - unfold einsum_term, term. fold A.
+    assert (G : forall (tl : list ptensor) (il : list (list nat)),
+              Forall2 (fun t inp => length (vaxes t) = length inp) tl il ->
+              (forall l e, In (l, e) (occurrences tl il) -> In (l, e) occ) ->
+              (forall t, In t tl -> In t ts) ->
+              prodS o (combine (map (dn (R:=R)) tl) il) (fun oi => snd (fst oi) (map A (snd oi))) = prodS o tl (fun t => pget R t rho)).
+    { induction 1 as [|t inp tl il Ft F2 IH]; intros Hocc Hsub; [reflexivity|].
+      cbn [map combine]. rewrite !(prodS_cons o). f_equal.
+      - cbn [fst snd dn]. assert (Ht : In t ts) by (apply Hsub; left; reflexivity).
+        rewrite Forall_forall in HW.
+        assert (Em : map A inp = evals rho (vaxes t)).
+        { symmetry. unfold evals. apply (map_eq_combine (eval rho) A (vaxes t) inp Ft). intros e l Hin.
+          assert (Hoc : In (l, e) occ) by (apply Hocc; rewrite occurrences_cons; apply in_or_app; left; exact Hin).
+          specialize (Co (l, e) Hoc). simpl in Co. apply Nat.eqb_eq in Co. rewrite Co. symmetry. apply HA.
+          apply (in_concat_occ ts inputs l HF). exists e. exact Hoc. }
+        rewrite Em. apply denote_backed; [apply wf_covers; apply HW; exact Ht|].
+        apply Forall_forall. intros e He. apply inrange_fvn. intros k n Hk. apply Rin.
+        unfold V, all_vars. apply in_flat_map. exists t. split; [exact Ht|]. apply (wf_fv R t (HW t Ht)). apply in_flat_map. eauto.
+      - apply IH; [|intros t' Ht'; apply Hsub; right; exact Ht'].
+        intros l e Hin. apply Hocc. rewrite occurrences_cons. apply in_or_app. right. exact Hin. }
+    apply (G ts inputs HF); auto.
+  - unfold term, ts. rewrite (prodS_map o). apply prodS_Forall2.
+    apply (views_read sigma rho (env_of pi') M Unb). apply Forall2_and; [apply mapM_Forall2; exact E3|exact V2].
+Qed.
+
+(** a pointer that attains the physical maximum attains the value of the cell *)
+Theorem ptr_attains oidx pi pp vp :
+  length oidx = length output ->
+  index_list outv [] oidx = IOk pi ->
+  In pp (all_assts (map snd sv)) ->
+  ptr_translate sigma (map snd rest) outp sv (pcoords outp (env_of pi)) pp = Ok vp ->
+  prodS o views (fun v => vw_fn v (map (env_of (combine (map fst outp) (pcoords outp (env_of pi)) ++ combine (map fst sv) pp)) (map fst (vw_vars v))))
+  = einsum_views o views outp (pcoords outp (env_of pi)) ->
+  einsum_term o (map (dn (R:=R)) ts) inputs (combine output oidx ++ combine (summed_labels inputs output) vp)
+  = denote R (er_raw r) oidx.
+Proof.
+  intros Lo Hidx Hpp Hptr Hmax.
+  destruct (ptr_correct oidx pi pp vp Lo Hidx Hpp Hptr) as (_ & _ & Et). rewrite Et, Hmax.
+  rewrite Eraw. unfold denote. cbn [vaxes]. fold outv. rewrite Hidx. unfold pget. cbn [physical paxes].
+  symmetry. apply phys_out_eq.
+  destruct cv_facts as (_ & _ & _ & _ & _ & _ & V6 & _).
+  assert (Wraw : wf R (mkPT (phys_out o views outp) outp outv r0)) by (apply (repr_inv_wf R _ (map snd outp)); exact V6).
+  destruct (index_list_sound outv [] oidx pi (eq_trans Lo (eq_sym outv_length)) Hidx) as (_ & _ & Hs).
+  destruct (Hs (env_of pi) (agrees_env_of pi)) as [_ Ro].
+  assert (G : forall kn, In kn outp -> env_of pi (fst kn) < snd kn).
+  { intros [k n] Hk. apply (wf_fv R _ Wraw) in Hk. cbn [vaxes] in Hk.
+    apply in_flat_map in Hk. destruct Hk as (e & He & Hk). rewrite Forall_forall in Ro. exact (proj2 (inrange_fvn _ e) (Ro e He) k n Hk). }
+  unfold pcoords. clear -G. induction outp as [|kn l IH]; simpl; constructor; [apply G; left; reflexivity|].
+  apply IH. intros kn' H. apply G. right. exact H.
+Qed.
+
 End Run.
 End Final.
